@@ -303,6 +303,7 @@ package xmpp
 //@ func (xmpp.Transport).GetDecoder(t) (d)
 //@   ensures d != nil
 //@ func (xmpp.Transport).Close(t) (err)
+//@   emit Closed(t)
 //@ func (xmpp.Transport).Write(t, p) (n, err)
 //@   emit Write(t, bytes(p), err == nil, n)
 //@   ensures n >= 0 && n <= len(p)
@@ -799,3 +800,39 @@ package xmpp
 //@   assigns locked(addr(c.router.IQResultRouteLock))
 //@   elems c.router.IQResultRoutes
 //@   emits Write, Marshaled, Send, SendAttrs, Registered, Spawn, Spawn_NewIQResultRoute$1
+
+// ---------------------------------------------------------------------------
+// C18: keepalive
+//
+//@ event Ping(t Iface, ok Bool)
+//@ event Closed(t Iface)
+//@ event Selected(idx Int)
+//@ event TickerCreated(d Int)
+//@ event TickerStopped(t Ref)
+//@ func (xmpp.Transport).Ping(t) (err)
+//@   emit Ping(t, err == nil)
+//
+//@ func xmpp.keepalive(transport, interval, quit)
+//@   requires transport != nil
+//@   ensures [C18.interval] count(TickerCreated) == old(count(TickerCreated)) + 1 && last(TickerCreated) == interval
+//@   ensures [C18.stopped]  count(TickerStopped) == old(count(TickerStopped)) + 1
+//@   ensures [C18.quit]     last(Selected) == 1 ==> count(Ping) - old(count(Ping)) == count(Selected) - old(count(Selected)) - 1 && count(Closed) == old(count(Closed)) && (count(Ping) > old(count(Ping)) ==> atlast(Ping) < atlast(Selected))
+//@   ensures [C18.dead]     last(Selected) == 0 ==> count(Ping) - old(count(Ping)) == count(Selected) - old(count(Selected)) && !last(Ping, 1) && last(Ping, 0) == transport && count(Closed) == old(count(Closed)) + 1 && last(Closed) == transport && atlast(Ping) < atlast(Closed)
+//@   ensures [C18.alive]    forall(j, old(count(Ping)), count(Ping) - 1, arg(Ping, j, 1) && arg(Ping, j, 0) == transport)
+//@   ensures count(Selected) > old(count(Selected)) && (last(Selected) == 0 || last(Selected) == 1)
+//@   emits TickerCreated, TickerStopped, Ping, Closed, Select, Selected, ChanRecv
+//@   loop 1:
+//@     invariant count(TickerCreated) == old(count(TickerCreated)) + 1 && last(TickerCreated) == interval && count(TickerStopped) == old(count(TickerStopped)) && count(Closed) == old(count(Closed))
+//@     invariant count(Ping) - old(count(Ping)) == count(Selected) - old(count(Selected)) && count(Selected) >= old(count(Selected))
+//@     invariant forall(j, old(count(Ping)), count(Ping), arg(Ping, j, 1) && arg(Ping, j, 0) == transport)
+//@     invariant count(Ping) > old(count(Ping)) ==> atlast(Ping) > atlast(Selected) || count(Selected) == old(count(Selected))
+//
+//@ func (*xmpp.XMPPTransport).Ping(t) (err)
+//@   requires t != nil && t.conn != nil
+//@   emit Ping(iface(t), err == nil)
+//@   ensures [C18.ping.tcp] count(Write) == old(count(Write)) + 1 && last(Write, 0) == t.conn && last(Write, 1) == "\n" && (err == nil) == (last(Write, 2) && last(Write, 3) == 1)
+//@   emits Write
+//@ func (xmpp.WebsocketTransport).Ping(t) (err)
+//@   requires t.wsConn != nil
+//@   ensures [C18.ping.ws] count(WsPing) == old(count(WsPing)) + 1 && last(WsPing, 0) == t.wsConn && (err == nil) == last(WsPing, 1)
+//@   emits WsPing
